@@ -288,6 +288,28 @@ let query (p : pool) toks : string =
              (match o with OE _ -> "sub" | _ -> "eq")
              (names f.ins) (names (spec_essential f)) (sorted_pts (spec_support f))
              (List.length (spec_support f)))
+  | "rename" :: i :: n :: r ->
+      (* Expression::rename_literals (Model/Extra.v); the specified function is the original's after renaming its
+         arguments, tabulated over the inputs of the result *)
+      (match get i with
+       | Some ({ e_obj = OE ex; _ } as e) ->
+           let m = sort_valuation (take_pairs (int_of_string n) r (fun h g -> (name_of_hex h, name_of_hex g))) in
+           let res = e_rename ex m in
+           let ins = literals res in
+           let stv = List.map (fun p -> let v = env_of ins p in e.e_spec.fn (fun x -> v (rn m x))) (points (nat_of_int (List.length ins))) in
+           Printf.sprintf "ren=%s inputs=%s rtv=%s s.rtv=%s" (if e.e_opaque then "*" else show_expr res) (names ins)
+             (bits (obj_tv (OE res))) (bits stv)
+       | _ -> "skip")
+  | ["p2v"; i; pb] ->
+      (match get i with
+       | None -> "skip"
+       | Some e ->
+           let p = if pb = "." then [] else List.init (String.length pb) (fun k -> pb.[k] = '1') in
+           let show = function None -> "none" | Some rho -> if rho = [] then "-" else String.concat "," (List.map (fun (x, b) -> (if x = [] then "~" else hex_of_name x) ^ ":" ^ (if b then "1" else "0")) rho) in
+           let ex = (match e.e_obj with OE _ -> (match List.nth_opt !exact (int_of_string i) with Some true -> true | _ -> false) | _ -> true) in
+           (match obj_point_valuation e.e_obj p with
+            | Ok v -> "p2v=" ^ show v ^ (if ex then Printf.sprintf " s.n=%d" (List.length e.e_spec.ins) else "")
+            | _ -> "skip"))
   | "eval" :: i :: d :: n :: r ->
       (match get i with
        | None -> "skip"
